@@ -43,6 +43,10 @@ def run(ck, an, tier):
              f"the trade loop ranges over {it}", construct=stmt_text(loop))
     cvar, qvar = (tn + ["?", "?"])[:2]
     imb = it[: -len(".items()")]
+    if len(tn) != 2:
+        return
+    Cn = loop_item(fa, loop, 0)           # the loop's contract, by value id
+    imb_src = ast.unparse(loop.iter.func.value) if isinstance(loop.iter, ast.Call) and isinstance(loop.iter.func, ast.Attribute) else "?"
     # --- skips
     skips = [n for n in ast.walk(loop) if isinstance(n, (ast.Continue, ast.Break, ast.Return))]
     thr_found = False
@@ -59,7 +63,10 @@ def run(ck, an, tier):
         if isinstance(s, ast.Continue) and ins:
             # threshold skip
             thr_found = True
-            r_ok = len(rels) == 1 and rels[0][1] == "<" and poly_mentions(rels[0][4], "abs(", "_to_weights", sign=+1) and poly_mentions(rels[0][4], "self.margin", sign=-1) and len(rels[0][4].t) == 2
+            at_s = fa.node_of(enclosing_if(s).test).id
+            # abs(weight of this contract's imbalance) - self.margin, spelled with the function's own names and normalised by the same evaluator
+            thr = spec(fa, f"abs({imb_src}._to_weights(broker)[{cvar}]) - self.margin", at_s)
+            r_ok = len(rels) == 1 and rels[0][1] == "<" and len(rels[0][4].t) == 2 and rels[0][4].coeff_of_atom("self.margin") == Poly.const(-1) and any(a.startswith("abs(") and "_to_weights" in a for a in rels[0][4].atoms())
             if len(rels) == 1 and rels[0][1] == "<=" and poly_mentions(rels[0][4], "self.margin", sign=-1):
                 ck.fail("CMP", "S1.threshold-strict", subj, fa.loc(s), "the threshold test is `<=`: an imbalance exactly at the threshold is skipped (property: at least the threshold trades)",
                         construct=stmt_text(enclosing_if(s)))
@@ -69,9 +76,9 @@ def run(ck, an, tier):
             if r_ok:
                 # the weight looked up is the one of the loop's contract, from the imbalance's own weights
                 k = rels[0][4].key()
-                ck.check(f"[{cvar}" in k and f"{_p(imb)}._to_weights(broker)" in k, "ARGFLOW", "S1.threshold-weight", subj, fa.loc(s), "the weight tested is the imbalance weight of this contract",
+                ck.check(rels[0][4] == thr, "ARGFLOW", "S1.threshold-weight", subj, fa.loc(s), "the weight tested is the imbalance weight of this contract",
                          f"threshold tests {k}", construct=stmt_text(enclosing_if(s)))
-            i_ok = len(ins) == 1 and ins[0][3] is True and ins[0][1].startswith(cvar) and ins[0][2] == "self.allocation"
+            i_ok = len(ins) == 1 and ins[0][3] is True and ins[0][1] == Cn.key() and ins[0][2] == "self.allocation"
             ck.check(i_ok, "GUARD", "S2.exempts-untargeted", subj, fa.loc(s), "skip additionally requires `contract in self.allocation` (the target), so untargeted holdings are liquidated",
                      f"membership condition is {[cmp_key(i) for i in ins]} (expected contract in self.allocation)", construct=stmt_text(enclosing_if(s)))
             ck.check(len(atoms) == 2, "GUARD", "S1.threshold-conjunction", subj, fa.loc(s), "the skip condition is exactly the conjunction of the two tests",
@@ -80,7 +87,7 @@ def run(ck, an, tier):
             conj = all(p[0] != "or" for p in preds)
             ck.check(conj, "GUARD", "S1.threshold-and", subj, fa.loc(s), "the two tests are joined by `and`", "the two tests are joined by `or`: untargeted or large imbalances are skipped",
                      construct=stmt_text(enclosing_if(s)))
-        elif isinstance(s, ast.Continue) and any(a[0] == "rel" and a[1] == "==" and len(a[4].t) == 1 and qvar in a[2] and a[4].const_value() is None and not any(m == () for m in a[4].t) for a in atoms):
+        elif isinstance(s, ast.Continue) and any(rel_is(a, "==", fa.sym.ev(ast.Name(id=qvar, ctx=ast.Load()), fa.node_of(enclosing_if(s).test).id)) for a in atoms):
             zero_skip.append(s)
             extra = [a for a in atoms if not (a[0] == "rel" and a[1] == "==") and not (a[0] == "truthy" and a[1] == "self.fractional")]
             ck.check(not extra, "GUARD", "S4.zero-skip-pure", subj, fa.loc(s), "the sub-lot skip depends only on the quantity being zero",
@@ -102,7 +109,7 @@ def run(ck, an, tier):
         ck.fail("GUARD", "S1.trade-unconditional", subj, fa.loc(t), f"Trade construction is additionally guarded by `{ast.unparse(n.ast)}` ({lab})", construct="if " + ast.unparse(n.ast))
     # Trade args
     kw = {k.arg: k.value for k in t.keywords}
-    ck.check("contract" in kw and fa.sym.canon(kw["contract"]).startswith(cvar), "ARGFLOW", "S1.trade-contract", subj, fa.loc(t), "the trade is for the loop's contract",
+    ck.check("contract" in kw and fa.sym.canon(kw["contract"]) == Cn.key(), "ARGFLOW", "S1.trade-contract", subj, fa.loc(t), "the trade is for the loop's contract",
              f"Trade(contract={ast.unparse(kw.get('contract')) if 'contract' in kw else '?'})", construct="contract=")
     # --- S3 / S4 quantity flow
     qexpr = kw.get("quantity")
@@ -147,7 +154,7 @@ def run(ck, an, tier):
         for z in zero_skip:
             for n, lab in fa.guards(z):
                 c = fa.sym.cmp(n.ast, n.id)
-                if any(a[0] == "rel" and a[1] == "==" and qvar in a[2] for a in cmp_atoms(c)):
+                if any(rel_is(a, "==", fa.sym.ev(ast.Name(id=qvar, ctx=ast.Load()), n.id)) for a in cmp_atoms(c)):
                     ztests.add(n.id)
         reach = fa.cfg.reachable(dn, avoid=ztests | {fa.cfg.nodes.index(x) for x in []})
         # do not follow the loop back edge: a later iteration re-defines quantity
